@@ -31,7 +31,25 @@ func VH_C01_RoundTrip() {
 		l2.dayGanIndexExact == l.dayGanIndexExact && l2.dayZhiIndexExact == l.dayZhiIndexExact &&
 		l2.dayGanIndexExact2 == l.dayGanIndexExact2 && l2.dayZhiIndexExact2 == l.dayZhiIndexExact2 &&
 		l2.timeGanIndex == l.timeGanIndex && l2.timeZhiIndex == l.timeZhiIndex && l2.weekIndex == l.weekIndex)
+	// the solar-term table the object carries (observable through GetJieQiTable, GetJieQi, GetPrevJie ...)
+	vAssert("same-jieqi-table", vhSameJieQi(l, l2))
 	vReach("C01a")
+}
+
+func vhSameJieQi(a, b *Lunar) bool {
+	if len(a.jieQi) != len(b.jieQi) || len(a.jieQi) == 0 {
+		return false
+	}
+	for _, k := range JIE_QI_IN_USE {
+		x, y := a.jieQi[k], b.jieQi[k]
+		if x == nil || y == nil {
+			return false
+		}
+		if x.year != y.year || x.month != y.month || x.day != y.day || x.hour != y.hour || x.minute != y.minute || x.second != y.second {
+			return false
+		}
+	}
+	return true
 }
 
 // vhMonthFirstJDN: JDN of day 1 of a table month (firstJulianDay is a noon-based x.0 value).
